@@ -5,6 +5,7 @@ package gossip
 // In-package harnesses for C18. Injected by overlay only.
 
 import (
+	"context"
 	"errors"
 	"fmt"
 	"io"
@@ -20,6 +21,7 @@ import (
 	"github.com/bbva/qed/zzverif/rt"
 	"github.com/hashicorp/go-msgpack/codec"
 	"github.com/hashicorp/memberlist"
+	"github.com/prometheus/client_golang/prometheus"
 )
 
 // ---- environment stubs (targets of engine redirects; natively the real ones run) ----
@@ -102,11 +104,24 @@ func zzNewEncoder(w io.Writer, h codec.Handle) *codec.Encoder {
 
 // zzEncode: the codec contract for a batch: equal batches <-> equal bytes.
 func zzEncode(e *codec.Encoder, v interface{}) error {
+	var out []byte
+	if m, isMsg := v.(*Message); isMsg {
+		// canonical bytes of a whole message: every exported field contributes
+		out = append(out, byte(m.Kind), byte(m.TTL), byte(m.TTL>>8))
+		if m.From != nil {
+			out = append(out, byte(len(m.From.Name)))
+			out = append(out, m.From.Name...)
+		} else {
+			out = append(out, 0xff)
+		}
+		out = append(out, m.Payload...)
+		_, err := zzEncW.Write(out)
+		return err
+	}
 	ss, ok := v.([]*protocol.SignedSnapshot)
 	if !ok {
 		return errors.New("unsupported")
 	}
-	var out []byte
 	for _, s := range ss {
 		out = append(out, byte(len(s.Signature)))
 		out = append(out, s.Signature...)
@@ -239,35 +254,101 @@ func ZZC18Route() {
 	rt.Cover(len(dst) > 0, "routed")
 }
 
-// ZZC18Once: tasks are created once per distinct batch, whatever the delivery multiplicity/order.
-func ZZC18Once() {
+// ---- the processor loop, driven through its public Subscribe API ----
+
+var zzBatches []*protocol.BatchSnapshots
+
+// codec contracts for the JSON payload of a batch message (engine redirects; natively real JSON)
+func zzJSONMarshal(v interface{}) ([]byte, error) {
+	if b, ok := v.(*protocol.BatchSnapshots); ok {
+		for i, x := range zzBatches {
+			if x == b {
+				return []byte{0xb0, byte(i)}, nil
+			}
+		}
+	}
+	return nil, errors.New("json contract: unsupported value")
+}
+
+func zzJSONUnmarshal(data []byte, v interface{}) error {
+	b, ok := v.(*protocol.BatchSnapshots)
+	if !ok || len(data) != 2 || data[0] != 0xb0 || int(data[1]) >= len(zzBatches) {
+		return errors.New("json contract: undecodable")
+	}
+	src := zzBatches[data[1]]
+	b.Snapshots = nil
+	for _, s := range src.Snapshots {
+		b.Snapshots = append(b.Snapshots, &protocol.SignedSnapshot{
+			Snapshot:  &protocol.Snapshot{Version: s.Snapshot.Version, EventDigest: append([]byte{}, s.Snapshot.EventDigest...)},
+			Signature: append([]byte{}, s.Signature...),
+		})
+	}
+	return nil
+}
+
+func zzWithValue(parent context.Context, key, val interface{}) context.Context { return parent }
+
+type zzTasks struct{ added int }
+
+func (t *zzTasks) Start()             {}
+func (t *zzTasks) Stop()              {}
+func (t *zzTasks) Add(task Task) error { t.added++; return nil }
+func (t *zzTasks) Len() int           { return t.added }
+
+type zzFactory struct{ news int }
+
+func (f *zzFactory) New(ctx context.Context) Task {
+	f.news++
+	return func() error { return nil }
+}
+func (f *zzFactory) Metrics() []prometheus.Collector { return nil }
+
+// ZZC18Loop: an agent runs its tasks for a given batch at most once, however many times, from
+// however many peers and with whatever remaining TTL the batch arrives.
+func ZZC18Loop() {
 	cache := &zzCache{}
-	a := &Agent{Self: &Peer{Name: "self"}, Cache: cache, log: log.L()}
-	d := &BatchProcessor{a: a, mh: &codec.MsgpackHandle{}, log: log.L()}
+	tasks := &zzTasks{}
+	fac := &zzFactory{}
+	a := &Agent{Self: &Peer{Name: "self"}, Cache: cache, Tasks: tasks, log: log.L()}
+	a.Out.log = log.L()
+	d := NewBatchProcessor(a, []TaskFactory{fac}, log.L())
 	nb := 1 + rt.Choose("batches", 2)
-	batches := make([]*protocol.BatchSnapshots, nb)
-	for i := range batches {
-		batches[i] = &protocol.BatchSnapshots{Snapshots: []*protocol.SignedSnapshot{{
-			Snapshot:  &protocol.Snapshot{Version: uint64(i), EventDigest: rt.Bytes(fmt.Sprintf("ed%d", i), 2)},
+	zzBatches = nil
+	for i := 0; i < nb; i++ {
+		zzBatches = append(zzBatches, &protocol.BatchSnapshots{Snapshots: []*protocol.SignedSnapshot{{
+			Snapshot:  &protocol.Snapshot{Version: uint64(i), EventDigest: []byte{byte(i), 7}},
 			Signature: []byte{byte(i + 1)},
-		}}}
+		}}})
 	}
 	deliveries := 1 + rt.Choose("deliveries", rt.Param("DELIV", 4))
-	seen := map[int]bool{}
+	ch := make(chan *Message, 16)
+	distinct := map[int]bool{}
 	for k := 0; k < deliveries; k++ {
 		i := rt.Choose(fmt.Sprintf("which%d", k), nb)
-		// a fresh copy each time: the same batch arrives as different objects from different peers
-		cp := &protocol.BatchSnapshots{Snapshots: []*protocol.SignedSnapshot{{
-			Snapshot:  &protocol.Snapshot{Version: batches[i].Snapshots[0].Snapshot.Version, EventDigest: append([]byte{}, batches[i].Snapshots[0].Snapshot.EventDigest...)},
-			Signature: append([]byte{}, batches[i].Snapshots[0].Signature...),
-		}}}
-		var was bool
-		if !rt.NoPanic(func() { was = d.wasProcessed(cp) }, "was-processed") {
-			return
+		payload, err := zzBatches[i].Encode()
+		if err != nil {
+			panic(err)
 		}
-		rt.Assert(was == seen[i], "tasks-created-once-per-distinct-batch")
-		seen[i] = true
+		// the same batch reaches the agent over paths of different length and from different peers
+		ch <- &Message{Kind: BatchMessageType, TTL: 1 + rt.Choose(fmt.Sprintf("ttl%d", k), 3), From: &Peer{Name: zzNames[1+rt.Choose(fmt.Sprintf("from%d", k), 3)]}, Payload: payload}
+		distinct[i] = true
 	}
+	check := func() {
+		rt.Assert(fac.news == len(distinct), "tasks-created-once-per-distinct-batch")
+		rt.Assert(tasks.added == len(distinct), "tasks-enqueued-once-per-distinct-batch")
+	}
+	if rt.Symbolic() {
+		rt.OnBlocked(check) // the processor loop runs until it blocks on the drained channel
+		d.Subscribe(0, ch)
+		return
+	}
+	d.Subscribe(0, ch)
+	for i := 0; i < 400 && len(ch) > 0; i++ {
+		time.Sleep(5 * time.Millisecond)
+	}
+	time.Sleep(100 * time.Millisecond)
+	d.Stop()
+	check()
 }
 
 // ZZC18Locks: every access to the topology map happens with the topology lock held.
